@@ -29,7 +29,7 @@ class LInputScope(InputScope):
     TX_CLS = LTransaction
     TXOUT_CLS = LTransactionOutput
 
-    def __init__(self, unknown: dict = {}, **kwargs):
+    def __init__(self, unknown: dict = None, **kwargs):
         # liquid-specific fields:
         self.value = None
         self.value_blinding_factor = None
@@ -244,7 +244,7 @@ class LInputScope(InputScope):
 
 
 class LOutputScope(OutputScope):
-    def __init__(self, unknown: dict = {}, vout=None, **kwargs):
+    def __init__(self, unknown: dict = None, vout=None, **kwargs):
         # liquid stuff
         self.value_commitment = None
         self.value_blinding_factor = None
